@@ -536,6 +536,15 @@ func (s *Session) DialPatience(who string, k int, patience time.Duration) *Conn 
 	return c
 }
 
+// KillFrontDoors makes the websocket front doors die the hard way (sessions
+// with Options.Websocket): listeners gone, sockets dropped without a closing
+// handshake.
+func (s *Session) KillFrontDoors() {
+	for _, d := range s.doors {
+		d.Kill()
+	}
+}
+
 // BreakStreams breaks the relay's current attachments of the rendezvous named
 // P or K: which selects "c2s", "s2c" or "both".
 func (s *Session) BreakStreams(rdv, which string) {
